@@ -16,7 +16,7 @@ P = dict(
                 "inplace_function (captures of 1 and 3 tracked objects; copy/move/assign/nullptr/swap/self-swap/self-assign/call), pair, tuple, static_vector and "
                 "inplace_vector (all C01 histories with tracked elements plus self-assignment/self-swap/copy-only elements), stack. All histories of depth 2 "
                 "(thorough: 3) from the initial state by odometer enumeration plus seeded random histories of 50 steps, under ASan+UBSan."),
-    level_note="the registry sees only objects of the instrumented type; trivially-copyable alternatives are covered by value comparison only; static_set/flat_set lifetimes are exercised by the C09 tracked unit",
+    level_note="the registry sees only objects of the instrumented type; trivially-copyable alternatives are covered by value comparison only; static_set/flat_set lifetimes come from the C09 tracked-key units (only lifetime/crash records of those units count here)",
     technique="runtime lifetime-registry monitor (instrumented element type) + model of live-object count, under ASan+UBSan",
     design_ref="DESIGN.md section 4 C03 and 3.1",
     rule=("enumerated: 12 owner configurations x every operation history of depth 2 (quick) / 3 (thorough) with every argument (odometer), each history ending with the "
@@ -24,6 +24,8 @@ P = dict(
           "registry cross-check. Distinct = hash of (owner, abstract state before, operation, arguments)."),
     units=[
         Unit("C03_owners", "harness/C03_owners.cpp", flavours={"quick": ["asan-cc"], "thorough": ["asan-cc", "asan-nocc"]}, shards={"quick": 12, "thorough": 16}),
+        Unit("C03_sset_tracked", "harness/C09_sets.cpp", defs=["-DVF_UNIT=2", "-DVF_PART=0", "-g1"], flavours={"quick": ["asan-cc"], "thorough": ["asan-cc"]}, shards={"quick": 4, "thorough": 8}, only_kinds={"lifetime", "crash", "hang"}),
+        Unit("C03_fset_tracked", "harness/C09_sets.cpp", defs=["-DVF_UNIT=8", "-DVF_PART=0", "-g1"], flavours={"quick": ["asan-cc"], "thorough": ["asan-cc"]}, shards={"quick": 4, "thorough": 8}, only_kinds={"lifetime", "crash", "hang"}),
         c01(2, "tcm", "a", "0,1,2,3"), c01(2, "tcm", "b", "16,255,256"), c01(3, "tmo", "a", "0,1,2,3"), c01(3, "tmo", "b", "4,16,256", quick=False),
     ],
     floor={"quick": 50000, "thorough": 500000},
